@@ -350,14 +350,14 @@ Proof.
   destruct (next C s l) as [s1|] eqn:E; [intros H; inversion H; subst; eauto | exact IH].
 Qed.
 
-Lemma run_sched_reach {A} C down fuel : forall (s s0 : state A) o,
-  reach C s0 s -> run_sched C down fuel s = o ->
+Lemma run_sched_reach {A} C q down fuel : forall (s s0 : state A) o,
+  reach C s0 s -> run_sched C q down fuel s = o ->
   match o with OFinal s' => reach C s0 s' /\ final s' | OStuck s' => reach C s0 s' | OFuel s' => reach C s0 s' end.
 Proof.
   induction fuel as [|f IH]; intros s s0 o Hr <-; cbn [run_sched].
   - destruct (finalb s) eqn:Hf; [split; [exact Hr|apply Nat.eqb_eq; exact Hf] | exact Hr].
   - destruct (finalb s) eqn:Hf; [split; [exact Hr|apply Nat.eqb_eq; exact Hf]|].
-    destruct (first_enabled C s (prio C down s)) as [s1|] eqn:E; [|exact Hr].
+    destruct (first_enabled C s (prio q down s)) as [s1|] eqn:E; [|exact Hr].
     apply first_enabled_next in E. destruct E as [l Hl].
     apply (IH s1 s0 _ (reachS _ C s0 s l s1 Hr Hl) eq_refl).
 Qed.
@@ -376,7 +376,7 @@ Lemma ex_nonvacuous :
 Proof.
   split.
   - intros [|[|[|i]]]; cbn; try discriminate; try reflexivity. destruct i; discriminate.
-  - destruct (run_sched 2 false 100 (init ex_cfg)) as [s|s|s] eqn:E; vm_compute in E; try discriminate.
-    pose proof (run_sched_reach 2 false 100 (init ex_cfg) (init ex_cfg) _ (reach0 _ 2 _) E) as [Hr Hf].
+  - destruct (run_sched 2 3 false 100 (init ex_cfg)) as [s|s|s] eqn:E; vm_compute in E; try discriminate.
+    pose proof (run_sched_reach 2 3 false 100 (init ex_cfg) (init ex_cfg) _ (reach0 _ 2 _) E) as [Hr Hf].
     exists s. split; [exact Hr|]. split; [exact Hf|]. inversion E; subst s. split; reflexivity.
 Qed.
